@@ -36,7 +36,7 @@ def search(prop, names, failure, repo):
             continue
         ma = re.search(r'(?m)^\s+actual:\s*(.*)$', bl)
         crash = bool(ma and re.match(r'(PANIC|ABORT|HANG)', ma.group(1)))
-        encoder_side = bool(re.match(r'(encode|hide|writer-ops|bitmask)', m.group(2).strip()))
+        encoder_side = bool(re.match(r'(encode-avps|encode-messages|hide|writer-ops|bitmask)\b', m.group(2).strip()))
         if crash and prop not in crash_props and not encoder_side:
             res.setdefault('discounted_crash_witnesses', []).append(m.group(1))
             continue
